@@ -8,7 +8,12 @@ from ..gen import config, templates
 from ..semantic import SemSpec
 from . import c01, common
 
-OBJ_TEMPLATES = [templates.minmax_chains_program, templates.sum_chains_program, templates.inline_program, templates.math_program, templates.symmetry_program, templates.unused_program, templates.normalize_program]
+OBJ_TEMPLATES = [
+    templates.minmax_chains_program, templates.minmax_chains_program, templates.minmax_chains_program,
+    templates.sum_chains_program, templates.sum_chains_program, templates.sum_chains_program,
+    templates.inline_program, templates.inline_program,
+    templates.math_program, templates.symmetry_program, templates.unused_program, templates.normalize_program, templates.duplication_program,
+]
 EXTRA_OBJECTIVES = [
     ":~ sk(P,I,V). [V@1,P,I]", "#minimize{ V@2,P : sk(P,_,V) }.", ":~ sh(D,L). [-L@0,D]", "#maximize{ 1@1,D : sh(D,_) }.", ":~ pr(A,Y). [Y@1,A]",
     ":~ bonus(D,L). [L@0,D]", ":~ bonus(D,L). [L@1,D]", "#minimize{ L,D : late(D,L) }.", ":~ late(D,L). [-L@0,D]", "#minimize{ W,P : other(P,W) }.", ":~ other(P,W). [W@1,P]", ":~ oth(V,F). [F@1,V]",
